@@ -80,3 +80,31 @@ Theorem C13_acc_refuted_conditional_write :
   acc_refutes r_cond (st_of [((vc, [1]), 7)]) (fun _ => 99) (vn, []).
 Proof. exact acc_refuted_conditional_write. Qed.
 Print Assumptions C13_acc_refuted_conditional_write.
+
+(* any clause lists (what was generated), any statement list as the semantics of the region (calls expanded) *)
+Theorem C13_acc_sound_gen : forall isarr f r st st' tr c cin cout cpy,
+  exec f r st = Ok st' tr c ->
+  acc_run_ok_gen isarr cin cout cpy st tr = true ->
+  forall junk, exists st'',
+    exec_dev f isarr (cl_from cin cout cpy) junk r st = Ok st'' tr c /\
+    bnd st'' = bnd st' /\ forall l, val st'' l = val st' l.
+Proof. exact acc_sound_gen. Qed.
+Print Assumptions C13_acc_sound_gen.
+
+(* a by-reference argument of a non-pure call (READWRITE access) is always in the copy clause *)
+Theorem C13_readwrite_is_copy : forall isarr l x,
+  isarr x = true -> In (x, READWRITE) l -> classify isarr l x = Some Copy.
+Proof. exact readwrite_is_copy. Qed.
+Print Assumptions C13_readwrite_is_copy.
+
+(* a(1) = 0 ; call inc(a) *)
+Example C13_call_nonvacuous :
+  let isarr := fun x => mem x [0%nat] in
+  let st := store_of [((0%nat, [2]), 7)] [(0%nat, [(1, 3)])] in
+  in_clause isarr (xaccs false xs_call) Copy = [0%nat] /\ in_clause isarr (xaccs false xs_call) CopyOut = [] /\
+  exists st' tr, exec 20 sem_call st = Ok st' tr CNormal /\
+    acc_run_ok_gen isarr [] [] [0%nat] st tr = true /\ acc_run_ok_gen isarr [] [0%nat] [] st tr = false /\
+    exists st'' tr', exec_dev 20 isarr (cl_from [] [0%nat] []) (fun _ => 99) sem_call st = Ok st'' tr' CNormal /\
+                     val st'' (0%nat, [2]) <> val st' (0%nat, [2]).
+Proof. exact call_nonvacuous. Qed.
+Print Assumptions C13_call_nonvacuous.
